@@ -3,6 +3,8 @@ pub mod fqvar_ext;
 mod inner;
 mod lazy;
 pub mod ops;
+#[cfg(decaf377_verif)]
+pub mod verif;
 
 use ark_ff::ToConstraintField;
 use ark_std::vec::Vec;
